@@ -113,6 +113,16 @@ def create (t : Tab) (users : Pk → List Pk) (p : Pk) (n : Nm) (d : Def) : Tab 
   let t1 := (t.setDef p n (some d)).setCell p n (some p)
   if d.exp then t1.push users p n else t1
 
+/-- `Define` (the Go extension interface; `defgeneric`, `defstruct` … use it): a new entry object
+    for `p`'s `n`. It replaces `p`'s own entry object — users keep or lose it according to the new
+    export flag — or, when `p` has none, becomes `p`'s own entry in front of whatever `p`
+    inherited. A user's own entry of that name is never touched. -/
+def define (t : Tab) (uses users : Pk → List Pk) (p : Pk) (n : Nm) (d : Def) : Tab :=
+  if t.cell p n = some p then
+    let t1 := t.setDef p n (some d)
+    if d.exp then t1.push users p n else t1.retract uses users p n
+  else t.create users p n d
+
 /-- `Remove` / `Undefine`: the entry leaves `p`'s table and `p` falls back to what the use graph
     offers. An own entry object disappears and also leaves the tables of `p`'s users (they fall
     back too); an inherited entry stays with its owner, so the name remains visible. -/
@@ -256,6 +266,11 @@ def defun (s : State) (n : Nm) (body : Nat) : State :=
       v := if ph then s.v.remove s.uses s.users s.cur n else s.v,
       f := s.f.create s.users s.cur n { exp := ph, val := some body } }
 
+/-- `CurrentPackage.Define(creator, doc)` from Go: a built-in style function `n`, exported unless
+    `doc.NoExport` -/
+def gdefine (s : State) (n : Nm) (body : Nat) (exp : Bool) : State :=
+  { s with f := s.f.define s.uses s.users s.cur n { exp := exp, val := some body } }
+
 /-- `(in-package p)` -/
 def inPackage (s : State) (p : Pk) : State := { s with cur := p }
 
@@ -275,6 +290,7 @@ inductive Op where
   | defun (n : Nm) (body : Nat)
   | makunbound (n : Nm)
   | fmakunbound (n : Nm)
+  | gdefine (n : Nm) (body : Nat) (exp : Bool)
   deriving Repr
 
 def step (s : State) : Op → State
@@ -289,6 +305,7 @@ def step (s : State) : Op → State
   | .defun n b => defun s n b
   | .makunbound n => makunbound s n
   | .fmakunbound n => fmakunbound s n
+  | .gdefine n b e => gdefine s n b e
 
 def run (s : State) (ops : List Op) : State := ops.foldl step s
 
